@@ -19,6 +19,13 @@ CLAIMED = {
             "The model is tied to Curve/Surface/Volume evaluate_single / evaluate_list / evalpts / derivatives(order=0) (BSpline and NURBS) by exact correspondence.",
             "Not proved: the volume (triple) version of the tensor theorem and the agreement of the object layer's entry points (both covered by correspondence + exact oracle). "
             "Known finding F-01 (sample size under normalize_kv=False) is reported as KNOWN-FINDING."),
+    'C04': ("7/C04",
+            "Lean theorem insert_preserves_curve_point: for every degree, sorted knot vector, control polygon of any dimension (homogeneous points for rational curves), "
+            "insertion parameter with any prior multiplicity s, any count r with r+s<=p, and EVERY evaluation parameter, the point computed by A2.2/A3.1 from the model of "
+            "helpers.knot_insertion / knot_insertion_kv equals the original point (polar-form refinement theorem, no bound on anything); plus: knot vector gains exactly r "
+            "copies (multiset), stays sorted, net grows by r, over-multiplicity requests are rejected. The model (including the per-direction gather/scatter for surfaces "
+            "and volumes and the partial application when a later direction is rejected) is tied to operations.insert_knot and the insert_knot methods by exact correspondence.",
+            "Not proved: the lifting of the curve theorem to surfaces / volumes (model + correspondence + exact oracle only); A5.1's in-place loops vs the model's index-by-index form is tied by correspondence."),
     'C03': ("7/C03",
             "Lean theorems over the executable model (any degree, any non-decreasing knot function, any parameter, any ordered field): "
             "linear span search returns the unique half-open interval; A2.2 has p+1 non-negative values summing to 1 and equals the Cox-de Boor "
